@@ -333,6 +333,22 @@ def cnd3_block_condition_implies_flush_condition(ctx):
     FL = _c.inlined_anchor(P, FL, lambda n: n.endswith('Storage::unflushed_wal_ids') or n.endswith('MetaStore::unflushed_wal_ids'),
                            keep=('InnerLocustDB::wal_flush',))
     bodies = [ING] + [cb for cb in P.closures_of(ING)]
+    # the wait may live in a helper (`fn lock_wal_size_below_limit(&self) -> MutexGuard<u64>`)
+    WAITRE = re.compile(r'Condvar::wait(_while|_timeout|_timeout_while)?$')
+    frontier = [ING]
+    for _depth in range(2):
+        nxt = []
+        for b0 in frontier:
+            for (blk, t) in b0.calls():
+                if blk.cleanup or not t.func:
+                    continue
+                cs = [c for c in P.resolve(t.func, b0.crate) if c.crate == b0.crate and c.kind == 'fn']
+                if len(cs) == 1 and cs[0] not in bodies and \
+                        any(WAITRE.search(norm_callee(t2.func or '')) for (_b2, t2) in cs[0].calls()):
+                    bodies.append(cs[0])
+                    bodies += list(P.closures_of(cs[0]))
+                    nxt.append(cs[0])
+        frontier = nxt
     block = []
     for b in bodies:
         b.parse()
@@ -340,7 +356,7 @@ def cnd3_block_condition_implies_flush_condition(ctx):
             block.append((o, s, b))
     # keep the comparisons that control a condvar wait: in the body of a wait_while predicate, or
     # dominating a Condvar::wait call on their true edge
-    waits = [(blk, t) for (blk, t) in ING.calls() if not blk.cleanup and re.search(r'Condvar::wait(_while|_timeout|_timeout_while)?$', norm_callee(t.func or ''))]
+    waits = [(blk, t) for b0 in bodies for (blk, t) in b0.calls() if not blk.cleanup and WAITRE.search(norm_callee(t.func or ''))]
     ctx.require(waits, 'CND-3: ingest_efficient never waits on a condvar')
     pred_closures = set()
     for (blk, t) in waits:
@@ -349,7 +365,7 @@ def cnd3_block_condition_implies_flush_condition(ctx):
     ops_block = set()
     site = None
     for (o, s, b) in block:
-        if b.name in pred_closures or b is ING:
+        if b.name in pred_closures or b in bodies:
             if o in ('Gt', 'Ge'):
                 ops_block.add(o)
                 site = s
